@@ -74,7 +74,7 @@ def run(ctx):
     ]
     return vlib.finish(
         ctx,
-        rule="TLC explores the design model (reference counting, freeze/unfreeze, bounded wait for writers, cached digest, two-half CAS transfer) for every interleaving of 2 client threads and 2 uploaders and checks C16_Refs/CloseOnce/Stale/Digest/NoLostWakeup (+ BoundedWait under fairness). The real NewPoolBackedFileAllocator behind the real FUSE and NFS stateful handle allocators - driven directly, and through builder.NewVirtualBuildDirectory(InMemoryPrepopulatedDirectory).InstallHooks/UploadFile as the worker does - runs over an instrumented pool and a gated fake CAS: scripted races, seeded random histories, an exhaustive enumeration of short histories, and calls resuming on a released file (testing/synctest, one call per step, watchdog for spinning calls). TLC validates every line: number of Close() calls on the pool file vs. links+descriptors+frozen readers at every return and quiescent point, no touch of released storage, status of calls on released/live files, reported digest = digest (under the function the caller asked for) of the bytes the CAS received = a content the file had during the upload, stat digests = present contents, the contents of the pool file = the contents the callers put there (create size, writes, truncations, allocations, O_TRUNC accumulated from the call arguments; overlapping calls in any order) whenever no content-changing call is in progress, link counts, waits only while their condition holds.",
+        rule="TLC explores the design model (reference counting, freeze/unfreeze, bounded wait for writers, cached digest, two-half CAS transfer) for every interleaving of 2 client threads and 2 uploaders and checks C16_Refs/CloseOnce/Stale/Digest/NoLostWakeup (+ BoundedWait under fairness). The real NewPoolBackedFileAllocator behind the real FUSE and NFS stateful handle allocators - driven directly, and through builder.NewVirtualBuildDirectory(InMemoryPrepopulatedDirectory).InstallHooks/UploadFile as the worker does - runs over an instrumented pool and a gated fake CAS: scripted races, seeded random histories, an exhaustive enumeration of short histories, and calls resuming on a released file (testing/synctest, one call per step, watchdog for spinning calls). TLC validates every line: number of Close() calls on the pool file vs. links+descriptors+frozen readers at every return and quiescent point, no touch of released storage, status of calls on released/live files, reported digest = digest (under the function the caller asked for) of the bytes the CAS received = a content the file had during the upload, stat digests = present contents, the contents of the pool file = the contents the callers put there (create size, writes, truncations, allocations, O_TRUNC accumulated from the call arguments; overlapping calls in any order) whenever no content-changing call is in progress, a frozen reader shows one and the same contents for as long as it is open, link counts, waits only while their condition holds. Chained driver steps close a frozen view and freeze the file again (frozen reader or upload) in one goroutine before a mutator woken by the close can run (back-to-back freezes with parked writers).",
         explanation="lifetime/reference counting and upload consistency of pool_backed_file_allocator.go",
         exhaustive=True,
         extra={"drivers": meta},
